@@ -32,7 +32,7 @@ def local_callees(F, fn):
 @prop("C20")
 def c20(ctx):
     F, rep = ctx.F, ctx.rep
-    B = ctx.bins.get("dev")
+    B = ctx.bins.get(ctx.primary)
     rep.rule("C20.R1", "wiring: `exec` = cli::exec::run -> cli::parser::parse -> frontend::parser::parse, then exec::exec, whose body is "
              "exec_using's with the environment built from stdin() and the bare stdout(); `lint` = standard_linter().run on the parsed "
              "program; `parse` = {:#?} of the parsed Program; the sub-command names select exactly these three")
